@@ -342,12 +342,15 @@ func (c *Ctx) geRun() []*geVerdict {
 	}
 	cp := c.inContainerParam()
 	spec := evalOracle(cp)
+	// LIKE: some operation must be applied to (a, b); which one the library does not define (it has none)
+	spec["Like"] = evalSpec{"Like", 2, []int{2, 1}, false}
+	spec["NotLike"] = evalSpec{"Like", 2, []int{2, 1}, true}
 	var items []struct{ fam, expr string }
 	// every binary operator over every pair of operand kinds; prefix and postfix operators over every kind
 	kinds := []string{"a", "t", "f", "n", "z", "1"}
 	for _, op := range gxBinaryLexemes {
 		if op == "LIKE" {
-			continue // LIKE has no implementation (known finding of GRAM.exhaustive)
+			continue // LIKE is decided on its own (family like-operators)
 		}
 		for _, x := range kinds {
 			for _, y := range kinds {
@@ -360,6 +363,7 @@ func (c *Ctx) geRun() []*geVerdict {
 			items = append(items, struct{ fam, expr string }{"operand-kinds", e})
 		}
 	}
+	items = append(items, struct{ fam, expr string }{"operator-LIKE", "a LIKE b"}, struct{ fam, expr string }{"operator-NOT-LIKE", "a NOT LIKE b"})
 	// the sentences of the parser families
 	for _, f := range gxFamilies(false) {
 		switch f.name {
